@@ -40,7 +40,7 @@ m = {
  ],
  'checks': [],
  'not_applicable': [{'property_id': 'C12', 'reason': 'quantifies over programs with rustc\'s accept/reject verdict as oracle; no function contract or data-structure invariant can express "this program does not compile", and neither Kani nor Verus takes an ill-typed program as input (DESIGN.md §11)'}],
- 'notes': 'exit 0 = all obligations discharged; exit 1 + VIOLATION = an expected obligation refuted (counterexample replayed natively via cargo kani playback where CBMC gives one); exit 2 + UNDECIDED = lost anchor / tool limit, never an alarm. Fixed defects are recorded in known_findings.txt.',
+ 'notes': 'exit 0 = all obligations discharged; exit 1 + VIOLATION = an expected obligation refuted (counterexample replayed natively via cargo kani playback where CBMC gives one); exit 2 + UNDECIDED = tool limit / machinery problem / nothing decided, never an alarm; a tree whose text engine V cannot read (lost anchor, construct outside its rewrite table) while engine K decided its obligations is exit 0 with a PARTIAL line naming the all-N part left undecided. Fixed defects are recorded in known_findings.txt.',
 }
 STANDIN_NOTE = {
     **{p: 'BOUNDED STAND-IN (labelled bounded, never counted as proved): native panic injection at every call index / every panicking element for N <= 4 on the unwinding paths no verifier here can execute (standin/src/main.rs); ' for p in ('C04', 'C05', 'C09', 'C16')},
